@@ -284,6 +284,13 @@ def gen_cases(rng: random.Random, tier: str):
             yield dict(ops=[["sub", [ALL]]], ctx=dict(kind=kind, list=l)), "ctx-from-all"
         for l in ([ALL], [T[0], ALL], [ALL, T[0]]):
             yield dict(ops=[["sub", [T[1]]]], ctx=dict(kind=kind, list=l)), "ctx-with-all"
+    # the SAME Client object on a second connection after the first one was lost (no disconnect()): nothing of the old
+    # connection's subscriptions is the new connection's - client and manager both start from nothing
+    for pre in ([["sub", [a, b]]], [["sub", [a, b]], ["pause", [b]]], [["sub", [ALL]]], [["sub", [a]], ["pause_all"]]):
+        for main in ([], [["sub", [T[2]]]], [["resume_all"]], [["pause", [a]]], [["unsub", [a]]], [["resume", [b]]],
+                     [["sub", [T[2]]], ["resume_all"], ["unsub_all"]]):
+            yield dict(ops=main, ctx=None, prelude=dict(ops=pre)), "reconnect-after-loss"
+        yield dict(ops=[["sub", [a]]], ctx=dict(kind="sub", list=[a, b]), prelude=dict(ops=pre)), "reconnect-after-loss"
     # longer lists with repetitions from random states
     for _ in range(1500 if tier == "thorough" else 150):
         S = [t for t in UNI if rng.random() < 0.4]
@@ -337,6 +344,13 @@ def run(chk: Check):
         last = res["steps"][-1] if res["steps"] else dict(sub=[], paused=[], deliv=[])
         if res["ctx"] or (last["deliv"] and set(last["deliv"]) != set(PROBES)) or last["paused"]:
             nontrivial.add(json.dumps(case, sort_keys=True))
+        po = res.get("prelude")
+        if case.get("prelude") and po is not None:
+            if po.get("lost") != "ConnectionLost" or po["sub"] or po["paused"] or po["deliv"]:
+                chk.spec_failure("reconnect:stale-mirror" if po.get("lost") == "ConnectionLost" else "reconnect:loss-not-reported",
+                                 f"after {case['prelude']['ops']} the connection was lost ({po.get('lost')}) and the same Client connected "
+                                 f"again: it reports subscribed={po['sub']} paused={po['paused']}, the manager delivers {po['deliv']} "
+                                 f"(a new connection has no subscriptions)", dict(case=case, observed=res, universe=PROBES))
         oracle(chk, case, res)
         coq_cases.append(case_coq(case, res))
         idx.append(i)
